@@ -128,7 +128,7 @@ impl<const N: usize> Exec<N> {
                 if ok_model != ok_hook {
                     self.stats.bump("probe.next_id_gate_disagrees");
                 }
-                if !(ok_model && ok_hook) || inst.poisoned {
+                if !(ok_model && ok_hook) || inst.poisoned || inst.m.adoptive {
                     return Ok(Applied::Skipped);
                 }
                 for (f, _) in self.view.followers(*i) {
@@ -176,7 +176,7 @@ impl<const N: usize> Exec<N> {
             }
             Step::CutAll { path, sample } => self.do_cut_all(*path, sample, s),
             Step::Drain { i, on_clone, order } => self.do_drain(*i, *on_clone, *order, s),
-            Step::Slice { src, v, pred, seeds } => self.do_slice(*src, *v, *pred, seeds, s),
+            Step::Slice { src, v, pred, seeds, keep } => self.do_slice(*src, *v, *pred, seeds, *keep, s),
             Step::Merge { dst, src, left, right } => self.do_merge(*dst, *src, *left, *right, s),
             Step::Script { i, cmds, style, var } => self.do_script(*i, cmds, *style, *var, s),
             Step::Damage { path, kind } => self.do_damage(*path, *kind),
